@@ -32,11 +32,20 @@ func (k *Checker) refreshLog(n *Node, st *raft.VerifState, view bool) {
 		prevTerm, prevErr = n.rn.VerifLogTerm(st.FirstIndex - 1)
 	}()
 	if bad != "" {
-		k.report("C18", "lg.view_unreadable", n, fmt.Sprintf("combined log view [%d,%d] cannot be read: %s", st.FirstIndex, st.LastIndex, bad), "")
+		if k.opt.Debug {
+			fmt.Printf("DEBUG step %d node %d: view [%d,%d] unreadable: %s\n", k.c.step, n.id, st.FirstIndex, st.LastIndex, bad)
+		}
+		// the log claims the index range [first,last] and cannot produce the
+		// entries in it: under C18 the view does not behave like a list, under
+		// C03 the log's positions are not contiguous up to its last index
+		k.report2("C18", "lg.view_unreadable", "C03", "log.shape", n, fmt.Sprintf("combined log view [%d,%d] cannot be read: %s", st.FirstIndex, st.LastIndex, bad), "")
 		return
 	}
 	k.count("log.shape")
 	// C03 log.shape: contiguous, terms non-decreasing.
+	if k.opt.Debug && uint64(len(ents)) != st.LastIndex+1-st.FirstIndex {
+		fmt.Printf("DEBUG step %d node %d: view [%d,%d] returned %d entries\n", k.c.step, n.id, st.FirstIndex, st.LastIndex, len(ents))
+	}
 	if uint64(len(ents)) != st.LastIndex+1-st.FirstIndex {
 		k.report("C03", "log.shape", n, fmt.Sprintf("log view [%d,%d] returned %d entries", st.FirstIndex, st.LastIndex, len(ents)), "")
 		return
